@@ -13,6 +13,7 @@ import (
 	"strings"
 	"text/template"
 
+	"github.com/FollowTheProcess/spok/task"
 	"github.com/fatih/color"
 	"github.com/lithammer/fuzzysearch/fuzzy"
 )
@@ -36,7 +37,7 @@ func Intern(s string) int {
 }
 
 // ResetHash forgets all interned inputs (and the JSON model's memory).
-func ResetHash() { interned = nil; snapshots = nil; JSONValues = nil }
+func ResetHash() { interned = nil; snapshots = nil; JSONValues = nil; JSONTexts = nil }
 
 type digest struct{ buf []byte }
 
@@ -69,12 +70,28 @@ var JSONValues []any
 const jsonMagic = "\x01JSON#"
 
 // JSONMarshal replaces encoding/json.Marshal for the cache map: the text stands for a snapshot.
+// JSONTexts are the texts returned for the values of JSONValues.
+var JSONTexts []string
+
 func JSONMarshal(v any) ([]byte, error) {
 	m, ok := v.(map[string]string)
 	if !ok {
 		// any other value: remembered for the harness to inspect, the text is a token
 		JSONValues = append(JSONValues, v)
-		return []byte(fmt.Sprintf("\x01JSONVAL#%d#", len(JSONValues)-1)), nil
+		text := fmt.Sprintf("\x01JSONVAL#%d#", len(JSONValues)-1)
+		// the text also carries the strings of a run report, as a real document would, so that
+		// whatever the caller does to the text on its way out happens to them too
+		if res, ok := v.(task.Results); ok {
+			for _, r := range res {
+				text += "\x02" + r.Task
+				for _, c := range r.CommandResults {
+					text += "\x02" + c.Cmd + "\x02" + c.Stdout + "\x02" + c.Stderr
+				}
+			}
+			text = strings.ReplaceAll(text, "\n", "\x03")
+		}
+		JSONTexts = append(JSONTexts, text)
+		return []byte(text), nil
 	}
 	cp := map[string]string{}
 	for k, val := range m {
